@@ -29,6 +29,9 @@ def gen_case(seed):
         'flags': r.chance(30),
         't0': r.chance(20),
         'noforce_end': r.chance(20),
+        'emitflags': r.chance(25),
+        'emit_step': r.chance(15),
+        'store_schema': r.chance(12),
     }
     if swarm['precision']:
         p = r.pick([1, 1, 2, 3])
@@ -135,10 +138,29 @@ def gen_case(seed):
     init = {}
     if r.chance(40):
         init = {'acc': {v: r.rint(0, 1000) for v in avars if r.chance(60)}}
+    noemit = []
+    if swarm['emitflags']:
+        noemit = [v for v in avars if r.chance(40)]
+    for spec in procs + steps:
+        spec['noemit'] = noemit
+    store_schema = None
+    if swarm['store_schema']:
+        m = r.below(3)
+        if m == 0:
+            store_schema = {'acc': {'_emit': bool(r.below(2))}}          # branch-level flag
+        elif m == 1:
+            store_schema = {'acc': {r.pick(avars): {'_emit': bool(r.below(2))}}}
+        else:
+            store_schema = {'acc': {'_emit': False, }, 'verif_probe': {'_emit': True}}
+            store_schema = {'acc': {'_emit': False}}
+    emit_step = 1
+    if swarm['emit_step'] and (p is None or p == 1):
+        emit_step = r.pick([2, 2, 3, 5])
     case = {
         'profile': PROFILE, 'seed': seed,
-        'opts': {'precision': p, 'unit': unit, 'emit_step': 1,
+        'opts': {'precision': p, 'unit': unit, 'emit_step': emit_step,
                  't0': t0u},
+        'store_schema': store_schema,
         'procs': procs, 'steps': steps, 'init': init, 'ops': ops,
         'swarm': sorted(k for k, v in swarm.items() if v),
     }
@@ -157,11 +179,30 @@ def _topology_for(spec, depth):
     return topo
 
 
-def build(case, parallel=()):
+def permute_dict(d, rng):
+    """Same mapping, seeded different insertion order (recursively)."""
+    if not isinstance(d, dict):
+        return d
+    keys = rng.shuffle(list(d.keys()))
+    return {k: permute_dict(d[k], rng) for k in keys}
+
+
+def build(case, parallel=(), perm=None):
     from dst.parties import KProc, KStep
+    from dst.rng import derive
     processes, steps, topology, flow = {}, {}, {}, {}
-    for spec in case['procs']:
-        params = {'spec': spec}
+    procs = list(case['procs'])
+    stepl = list(case.get('steps', []))
+    prng = None
+    if perm is not None:
+        prng = Rng(derive(perm, 'perm'))
+        procs = prng.shuffle(procs)
+        # flow-less derivers run in declaration order by contract: keep the
+        # relative order of the steps, permute everything else
+    for spec in procs:
+        params = {'spec': spec, 'name': spec['name']}
+        if perm is not None:
+            params['perm'] = derive(perm, spec['name'])
         if spec.get('condition_path'):
             params['_condition'] = tuple(spec['condition_path'])
         if spec['name'] in parallel or spec.get('parallel'):
@@ -170,8 +211,10 @@ def build(case, parallel=()):
         path = spec['path']
         harness.assoc(processes, path, proc)
         harness.assoc(topology, path, _topology_for(spec, len(path) - 1))
-    for spec in case.get('steps', []):
-        params = {'spec': spec}
+    for spec in stepl:
+        params = {'spec': spec, 'name': spec['name']}
+        if perm is not None:
+            params['perm'] = derive(perm, spec['name'])
         st = KStep(params)
         path = spec['path']
         topo = _topology_for(spec, len(path) - 1)
@@ -182,7 +225,28 @@ def build(case, parallel=()):
         harness.assoc(topology, path, topo)
         if spec.get('flow') is not None:
             harness.assoc(flow, path, [tuple(d) for d in spec['flow']])
+    if prng is not None:
+        topology = permute_dict(topology, prng)
+        flow = permute_dict(flow, prng)
+        # processes dict: permute, but keep flow-less derivers in their
+        # relative declaration order (that order is part of the contract)
+        processes = _permute_keep_steps(processes, prng)
     return processes, steps, topology, flow
+
+
+def _permute_keep_steps(d, rng):
+    from vivarium.core.process import Process
+    if not isinstance(d, dict):
+        return d
+    keys = list(d.keys())
+    step_keys = [k for k in keys if isinstance(d[k], Process) and d[k].is_step()]
+    other = rng.shuffle([k for k in keys if k not in step_keys])
+    # interleave: steps keep relative order, positions chosen by the rng
+    out = list(other)
+    pos = sorted(rng.below(len(out) + 1) for _ in step_keys)
+    for off, (p_, k) in enumerate(zip(pos, step_keys)):
+        out.insert(p_ + off, k)
+    return {k: _permute_keep_steps(d[k], rng) for k in out}
 
 
 def budget_for(case, units):
@@ -190,7 +254,7 @@ def budget_for(case, units):
     return 4000 * (units + 20) * n
 
 
-def execute(case, parallel=()):
+def execute(case, parallel=(), perm=None, emit_step=None):
     import copy
     opts = case['opts']
     unit = opts['unit']
@@ -198,14 +262,21 @@ def execute(case, parallel=()):
     run = harness.Run()
     harness.begin_run(t0)
     try:
-        processes, steps, topology, flow = build(case, parallel)
+        processes, steps, topology, flow = build(case, parallel, perm)
+        init = copy.deepcopy(case.get('init') or {})
+        kw = {}
+        if perm is not None:
+            init = permute_dict(init, Rng(perm))
+        if case.get('store_schema'):
+            kw['store_schema'] = copy.deepcopy(case['store_schema'])
         eng = harness.make_engine(
             run, budget_for(case, 1),
             processes=processes, steps=steps, topology=topology, flow=flow,
-            initial_state=copy.deepcopy(case.get('init') or {}),
+            initial_state=init,
             global_time_precision=opts.get('precision'),
-            emit_step=opts.get('emit_step', 1),
-            initial_global_time=t0)
+            emit_step=(emit_step if emit_step is not None
+                       else opts.get('emit_step', 1)),
+            initial_global_time=t0, **kw)
         if eng is not None:
             harness.drive(run, eng, case['ops'], unit,
                           lambda op: budget_for(case, op[1] if len(op) > 1 else 1))
@@ -362,6 +433,22 @@ def check(case, run, stats=None):
                 probe('interval-after-quiet')
             o = ops.get(ev['op'])
             force_end = o['end'] if (o is not None and o.get('force')) else None
+            # C04: nothing that was due at or before this instant may still be
+            # unapplied when a party is started
+            for ouid, od in st.items():
+                op_ = od['pending']
+                if op_ is None or ouid == uid or op_['lo'] != op_['hi']:
+                    continue
+                E_o = op_['lo'] + op_['ts_req']
+                if op_['force_end'] is not None and E_o > op_['force_end']:
+                    E_o = op_['force_end']
+                elif prec is not None:
+                    E_o = round(E_o, prec)
+                if E_o <= T and op_['T'] < T:
+                    out.append(V('C04', 'C04.due-update-unapplied', 'plain',
+                                 '%s started at %r while the update of %s due at %r is not applied yet' % (
+                                     uid, T, ouid, E_o), seq))
+                    return out
             d['pending'] = {'n': ev['n'], 'lo': lo, 'hi': hi, 'ts_req': p['ans'],
                             'ts_arg': ev['ts'], 'T': T, 'force_end': force_end,
                             'op': ev['op'], 'seq': seq, 'ev': ev,
@@ -483,21 +570,20 @@ def check(case, run, stats=None):
                              'row time %r but engine time %r' % (rt, T), seq))
                 return out
             if last_emit_T is not None and not (rt > last_emit_T):
-                out.append(V('C03', 'C03.emit-not-increasing', 'plain',
-                             'row time %r after %r' % (rt, last_emit_T), seq))
-                return out
+                if not (opts.get('emit_step', 1) != 1 and rt == last_emit_T):
+                    out.append(V('C03', 'C03.emit-not-increasing', 'plain',
+                                 'row time %r after %r' % (rt, last_emit_T), seq))
+                    return out
             last_emit_T = rt
             if prec is not None and rt != round(rt, prec):
                 out.append(V('C03', 'C03.off-grid', 'emit',
                              'row emitted at %r, not on the 1e-%d grid' % (rt, prec), seq))
                 return out
-            racc = row.get('acc') or {}
-            for v in all_vars:
-                if racc.get(v) != acc[v]:
-                    out.append(V('C01', 'C01.fold', 'emit',
-                                 'row at %r: %s=%r, expected %r (initial + applied updates)' % (
-                                     rt, v, racc.get(v), acc[v]), seq))
-                    return out
+            bad = _fold_mismatch(ev.get('snap'), acc)
+            if bad:
+                out.append(V('C01', 'C01.fold', 'emit',
+                             'state at emitted time %r: %s (initial + applied updates)' % (rt, bad[1]), seq))
+                return out
 
     if out:
         return out
@@ -593,6 +679,8 @@ NONTRIVIAL = {
     'C02': ('truncated-by-force', 'interval-after-quiet', 'deferred-across-boundary'),
     'C03': ('quiet-poll', 'truncated-by-force', 'deferred-across-boundary',
             'precision-run', 'repoll-different'),
+    'C04': ('shared-instant',),
+    'C12': ('>=3-applies', 'emit-step-differential'),
 }
 
 
@@ -661,6 +749,20 @@ def evaluate(case, prop=None):
     run = execute(case)
     stats = {}
     vs = check(case, run, stats)
+    executions = 1
+    vs += check_c12(case, run)
+    vs += check_c04_instants(case, run, stats)
+    if prop in (None, 'C12') and case['opts'].get('emit_step', 1) != 1 and not vs:
+        run1 = execute(case, emit_step=1)
+        executions += 1
+        vs += check_c12_subset(case, run, run1)
+        stats.setdefault('probes', {})['emit-step-differential'] = 1
+    if prop in (None, 'C04') and commuting(case) and not run.budget_hit:
+        from dst.rng import derive
+        run_p = execute(case, perm=derive(case['seed'], 'perm'))
+        executions += 1
+        vs += check_c04_perm(case, run, run_p)
+        stats.setdefault('probes', {})['perm-differential'] = 1
     probes = stats.get('probes', {})
     if case['opts'].get('precision') is not None:
         probes['precision-run'] = 1
@@ -684,6 +786,255 @@ def evaluate(case, prop=None):
         'violations': vs, 'probes': probes, 'nontrivial': nontrivial,
         'shape': shape_of(run.log), 'events': len(run.log),
         'sim_seconds': (stats.get('final_T', 0) or 0) - tval(case['opts'].get('t0', 0), case['opts']['unit']),
-        'faults': fault_counts(case, stats), 'executions': 1,
+        'faults': fault_counts(case, stats), 'executions': executions,
         'digest': run.digest,
     }
+
+
+# ---------------------------------------------------------------------------
+# C12: the emitted history (clauses decidable on kernel runs)
+# ---------------------------------------------------------------------------
+
+def emit_flags(case):
+    """Model of the emit flag of every leaf, from schemas and store_schema."""
+    flags = {}
+    noemit = set()
+    for sp in case['procs'] + case.get('steps', []):
+        noemit |= set(sp.get('noemit') or [])
+        for v in sp.get('vars', []):
+            flags[('acc', v)] = v not in (sp.get('noemit') or [])
+        for v in sp.get('fvars') or []:
+            flags[('flags', v)] = True
+        if sp.get('condition_path'):
+            flags[tuple(sp['condition_path'])] = True
+    for sp in case.get('steps', []):
+        flags[('out', sp['name'] + '_n')] = True
+        flags[('out', sp['name'] + '_sum')] = True
+    flags[('verif_probe',)] = False
+    ss = case.get('store_schema') or {}
+
+    def walk(d, path):
+        if '_emit' in d:
+            for k in list(flags):
+                if k[:len(path)] == path and len(k) > len(path):
+                    flags[k] = d['_emit']
+                elif k == path:
+                    flags[k] = d['_emit']
+        for key, sub in d.items():
+            if isinstance(sub, dict):
+                walk(sub, path + (key,))
+    walk(ss, ())
+    return flags
+
+
+def leaves(d, path=()):
+    out = {}
+    if isinstance(d, dict):
+        for k, v in d.items():
+            out.update(leaves(v, path + (k,)))
+    else:
+        out[path] = d
+    return out
+
+
+def check_c12(case, run):
+    out = []
+    log = run.log
+    opts = case['opts']
+    emits = [e for e in log if e['k'] == 'EMIT']
+    if not emits:
+        if run.exc is None:
+            out.append(V('C12', 'C12.no-config', 'plain', 'nothing was emitted'))
+        return out
+    if emits[0].get('table') != 'configuration':
+        out.append(V('C12', 'C12.no-config', 'plain',
+                     'first emit is %r, not the configuration record' % emits[0].get('table'), emits[0]['seq']))
+        return out
+    if sum(1 for e in emits if e.get('table') == 'configuration') != 1:
+        out.append(V('C12', 'C12.config-count', 'plain', 'more than one configuration record'))
+        return out
+    rows = [e for e in emits if e.get('table') == 'history']
+    unit = opts['unit']
+    t0 = tval(opts.get('t0', 0), unit)
+    if not rows or rows[0]['row'].get('time') != t0 or rows[0]['op'] != -1:
+        out.append(V('C12', 'C12.t0-row', 'plain',
+                     'no history row for the initial time %r emitted by the constructor' % t0))
+        return out
+    # the initial row comes after the constructor's step phase
+    for e in log:
+        if e['k'] == 'STEPNU' and e['op'] == -1 and e['seq'] > rows[0]['seq']:
+            out.append(V('C12', 'C12.t0-row', 'before-steps',
+                         'initial row emitted before the initial step phase finished', e['seq']))
+            return out
+    flags = emit_flags(case)
+    want_paths = set(k for k, f in flags.items() if f)
+    for e in rows:
+        got = leaves({k: v for k, v in e['row'].items() if k != 'time'})
+        snap = leaves(e['snap'] or {})
+        exp = {}
+        for pth in want_paths:
+            if pth in snap:
+                exp[pth] = snap[pth]
+        if got != exp:
+            extra = sorted(set(got) - set(exp))
+            missing = sorted(set(exp) - set(got))
+            diff = sorted(k for k in set(got) & set(exp) if got[k] != exp[k])
+            disc = 'extra' if extra else ('missing' if missing else 'value')
+            out.append(V('C12', 'C12.row-content', disc,
+                         'row at %r: extra %r missing %r different %r' % (
+                             e['row'].get('time'), extra[:4], missing[:4],
+                             [(k, got[k], exp[k]) for k in diff[:3]]), e['seq']))
+            return out
+    completed = run.exc is None
+    if opts.get('emit_step', 1) == 1 and completed:
+        specs = set(sp['name'] for sp in case['procs'])
+        batch_times = []
+        for e in log:
+            if e['k'] == 'APPLY' and isinstance(e['uid'], (tuple, list)) \
+                    and e['uid'][0].split('#')[0] in specs:
+                if not batch_times or batch_times[-1] != e['T']:
+                    batch_times.append(e['T'])
+        row_times = [e['row']['time'] for e in rows[1:]]
+        if row_times != batch_times:
+            extra = [t for t in row_times if t not in batch_times]
+            missing = [t for t in batch_times if t not in row_times]
+            out.append(V('C12', 'C12.rows-vs-batches',
+                         'extra' if extra else ('missing' if missing else 'order'),
+                         'rows at %r..., updates applied at %r... (extra %r, missing %r)' % (
+                             row_times[:6], batch_times[:6], extra[:4], missing[:4])))
+            return out
+    # the RAM emitter behind the recorder tells the same story
+    ram = run.extra.get('ram')
+    if completed and ram is not None:
+        rt = {}
+        for e in rows:
+            rt[e['row']['time']] = {k: v for k, v in e['row'].items() if k != 'time'}
+        if list(ram.keys()) != list(rt.keys()):
+            out.append(V('C12', 'C12.ram-times', 'plain',
+                         'RAMEmitter times %r != emitted %r' % (list(ram)[:8], list(rt)[:8])))
+            return out
+        for t, r_ in rt.items():
+            if leaves(ram[t]) != leaves(r_):
+                out.append(V('C12', 'C12.ram-row', 'plain',
+                             'RAMEmitter row at %r differs from the emitted one' % t))
+                return out
+    return out
+
+
+def check_c12_subset(case, run_k, run_1):
+    """emit_step > 1: rows are a subset of the emit_step == 1 rows."""
+    out = []
+    full = {}
+    for e in run_1.log:
+        if e['k'] == 'EMIT' and e.get('table') == 'history':
+            full[e['row']['time']] = e['row']
+    n = 0
+    for e in run_k.log:
+        if e['k'] == 'EMIT' and e.get('table') == 'history':
+            t = e['row']['time']
+            n += 1
+            if t not in full:
+                out.append(V('C12', 'C12.emit-step-subset', 'extra-time',
+                             'emit_step=%r emitted a row at %r that the emit_step=1 run does not have' % (
+                                 case['opts']['emit_step'], t), e['seq']))
+                return out
+            if leaves(full[t]) != leaves(e['row']):
+                out.append(V('C12', 'C12.emit-step-subset', 'content',
+                             'row at %r differs between emit_step=%r and emit_step=1' % (
+                                 t, case['opts']['emit_step']), e['seq']))
+                return out
+    return out
+
+
+# ---------------------------------------------------------------------------
+# C04: one committed snapshot per instant; declaration order is moot
+# ---------------------------------------------------------------------------
+
+def check_c04_instants(case, run, stats=None):
+    out = []
+    cur = None
+    cur_first = None
+    n_shared = 0
+    specs = {sp['name']: sp for sp in case['procs']}
+    allspecs = dict(specs)
+    allspecs.update({sp['name']: sp for sp in case.get('steps', [])})
+    for e in run.log:
+        k = e['k']
+        if k in ('APPLY', 'OPSTART', 'OPEND'):
+            cur = None
+            continue
+        if k in ('POLL', 'NU', 'STEPNU'):
+            snap = e.get('snap')
+            if snap is None:
+                continue
+            if cur is None:
+                cur = snap
+                cur_first = e
+            else:
+                if snap != cur:
+                    out.append(V('C04', 'C04.snapshot-changed', k,
+                                 'state changed between %s of %s (event %d) and %s of %s (event %d) '
+                                 'with no update applied in between' % (
+                                     cur_first['k'], cur_first['uid'], cur_first['seq'], k, e['uid'], e['seq']),
+                                 e['seq']))
+                    return out
+                n_shared += 1
+            # the view is the projection of that snapshot on the declared variables
+            sp = allspecs.get(e['uid'].split('#')[0])
+            view = e.get('view')
+            if sp is not None and view is not None:
+                want = {'acc': {v: (snap.get('acc') or {}).get(v) for v in sp.get('vars', [])},
+                        'probe': snap.get('verif_probe')}
+                if sp.get('fvars') or sp.get('condition_path'):
+                    fv = list(sp.get('fvars') or [])
+                    if sp.get('condition_path') and sp['condition_path'][1] not in fv:
+                        fv.append(sp['condition_path'][1])
+                    if not e['k'] == 'STEPNU' and sp['name'] in specs:
+                        want['flags'] = {v: (snap.get('flags') or {}).get(v) for v in fv}
+                if k == 'STEPNU' or sp['name'] not in specs:
+                    want['out'] = {sp['name'] + '_n': (snap.get('out') or {}).get(sp['name'] + '_n'),
+                                   sp['name'] + '_sum': (snap.get('out') or {}).get(sp['name'] + '_sum')}
+                if view != want:
+                    out.append(V('C04', 'C04.view-not-snapshot', k,
+                                 '%s of %s at %r saw %r, committed state projects to %r' % (
+                                     k, e['uid'], e['T'], view, want), e['seq']))
+                    return out
+    if stats is not None:
+        stats.setdefault('probes', {})
+        if n_shared:
+            stats['probes']['shared-instant'] = stats['probes'].get('shared-instant', 0) + n_shared
+    return out
+
+
+def rows_of(run):
+    return [(e['row'].get('time'), {k: v for k, v in e['row'].items() if k != 'time'})
+            for e in run.log if e['k'] == 'EMIT' and e.get('table') == 'history']
+
+
+def commuting(case):
+    """Oracle B only applies when the updates involved commute."""
+    writers = sum(1 for sp in case['procs'] if sp.get('flags'))
+    return writers <= 1
+
+
+def check_c04_perm(case, run, run_p):
+    out = []
+    if (run.exc is None) != (run_p.exc is None):
+        out.append(V('C04', 'C04.perm-outcome', 'exception',
+                     'one listing order raised (%r), the permuted one did not (%r)' % (
+                         run.exc and run.exc[1], run_p.exc and run_p.exc[1])))
+        return out
+    a, b = rows_of(run), rows_of(run_p)
+    if len(a) != len(b):
+        out.append(V('C04', 'C04.perm-trajectory', 'length',
+                     'trajectories differ in length under a permuted listing order: %d vs %d rows' % (len(a), len(b))))
+        return out
+    for (ta, ra), (tb, rb) in zip(a, b):
+        if ta != tb or leaves(ra) != leaves(rb):
+            la, lb = leaves(ra), leaves(rb)
+            diff = sorted(k for k in set(la) | set(lb) if la.get(k) != lb.get(k))
+            out.append(V('C04', 'C04.perm-trajectory', 'row',
+                         'rows differ under a permuted listing order at time %r/%r: %r' % (
+                             ta, tb, [(k, la.get(k), lb.get(k)) for k in diff[:3]])))
+            return out
+    return out
